@@ -326,6 +326,7 @@ func (x *Exec) verifyFunc(fn *ssa.Function, c *FuncContract) {
 	st := newState()
 	fr := &Frame{fn: fn, regs: map[ssa.Value]Value{}, env: map[string]envEntry{}, loopSeen: map[*ssa.BasicBlock]bool{}}
 	params := map[string]Value{}
+	addrParams := map[string]PtrV{}
 	for _, p := range fn.Params {
 		v := x.namedValue(st, "p_"+p.Name(), p.Type())
 		fr.regs[p] = v
@@ -336,13 +337,17 @@ func (x *Exec) verifyFunc(fn *ssa.Function, c *FuncContract) {
 		v := x.namedValue(st, "fv_"+fv.Name(), fv.Type())
 		fr.regs[fv] = v
 		// free variables are pointers to the captured variables
-		params[fv.Name()] = v
+		if pv, ok := v.(PtrV); ok {
+			addrParams[fv.Name()] = pv
+			st.assume(not(eq(pv.Base, intLit(0))))
+		}
 		fr.env[fv.Name()] = envEntry{v: v, isAddr: true}
 	}
 	st.frames = []*Frame{fr}
 	fr.block = fn.Blocks[0]
 	// lets and requires in the pre-state
 	sc := x.specCtxFor(st, fr, nil)
+	sc.addrVars = addrParams
 	for _, r := range c.Requires {
 		st.assume(x.evalBool(sc, r.Expr))
 	}
@@ -350,7 +355,7 @@ func (x *Exec) verifyFunc(fn *ssa.Function, c *FuncContract) {
 		st.assume(x.evalBool(sc, a.Expr))
 		x.trusted["assume in "+relName(fn)+": "+a.Text] = true
 	}
-	fr.pre = &preSnap{heap: copyHeap(st.heap), params: params, nEvent: 0}
+	fr.pre = &preSnap{heap: copyHeap(st.heap), params: params, nEvent: 0, addrParams: addrParams}
 	// vacuity: the precondition must be satisfiable
 	x.addCover(x.oblName("requires-sat", 0, ""), st)
 	x.explore(st)
@@ -525,7 +530,9 @@ func retype(v Value, t types.Type) Value {
 		return v
 	case PtrV:
 		v.Typ = t
-		if p, ok := t.Underlying().(*types.Pointer); ok && len(v.Path) == 0 && !v.Elem {
+		// a conversion between pointer types with identical underlying pointee (e.g. (*int64)(d) for
+		// d *AtomicDuration) keeps designating the same object: the heap key stays that of the origin type
+		if p, ok := t.Underlying().(*types.Pointer); ok && len(v.Path) == 0 && !v.Elem && !types.Identical(p.Elem().Underlying(), v.Root.Underlying()) {
 			v.Root = p.Elem()
 		}
 		return v
